@@ -3,6 +3,7 @@ package main
 import (
 	"fmt"
 	"go/types"
+	"math"
 	"strings"
 
 	"golang.org/x/tools/go/ssa"
@@ -10,24 +11,63 @@ import (
 
 type intrFn = func(m *Machine, fr *Frame, args []Value, call ssa.Instruction, isDefer bool) (Value, int)
 
+// memReader is the input-stream model (DESIGN §5): data[:L] then EOF or an injected error.
 type memReader struct {
+	name    string
+	max     int
 	data    *ByteArr
-	L       *T
-	pos     *T
+	L       *T // BV64
+	pos     *T // BV64
+	fail    *T // Bool: terminal error is an injected error instead of io.EOF
 	chunked bool
+	nread   int
 	reqs    *T
+	eofData *T
 }
 
 var models = map[*Loc]*memReader{}
 var errSeq int
+var reached = map[string]int{}
+var streams []*memReader
+
+func resetHarnessState() {
+	models = map[*Loc]*memReader{}
+	reached = map[string]int{}
+	streams = nil
+}
 
 func goString(v Value) string {
 	s := v.(Str)
 	b := make([]byte, len(s.B))
 	for i, c := range s.B {
+		if !c.IsC {
+			panic(unsupported{"symbolic string where a constant is required"})
+		}
 		b[i] = byte(c.C)
 	}
 	return string(b)
+}
+
+// packages whose functions are replaced by stubs unless listed in interpretFns
+var stubPkgs = map[string]bool{
+	"github.com/pkg/errors": true, "errors": true, "fmt": true, "runtime": true, "time": true, "math": true,
+	"strconv": true, "os": true, "github.com/klauspost/cpuid/v2": true, "log": true, "sort": true, "reflect": true,
+	"internal/bytealg": true, "unicode": true,
+}
+
+// functions of stubbed packages that are nevertheless interpreted from their real SSA
+var interpretFns = map[string]bool{
+	"strconv.AppendInt": true, "strconv.AppendUint": true, "strconv.ParseUint": true, "strconv.Itoa": true, "strconv.FormatInt": true,
+	"strconv.FormatUint": true, "strconv.formatBits": true, "strconv.small": true, "strconv.underscoreOK": true, "strconv.lower": true,
+	"strconv.Atoi": true, "strconv.ParseInt": true, "strconv.syntaxError": true, "strconv.rangeError": true, "strconv.baseError": true, "strconv.bitSizeError": true,
+	"strconv.cloneString": true, "strconv.formatBits$1": true,
+	"(time.Month).String": false,
+}
+
+// packages whose synthetic init is executed (others: init skipped, sentinel globals are opaque values)
+var initPkgs = map[string]bool{
+	"encoding/hex": true, "encoding/binary": true, "image/color": true, "image": true, "unicode/utf8": true,
+	"github.com/tinylib/msgp/msgp": false,
 }
 
 func (m *Machine) findIntr(fn *ssa.Function) intrFn {
@@ -51,15 +91,15 @@ func (m *Machine) findIntr(fn *ssa.Function) intrFn {
 	}
 	if fn.Pkg != nil {
 		p := fn.Pkg.Pkg.Path()
-		if name == "init" && !isRepoPkg(fn.Pkg) {
+		if name == "init" && fn.Signature.Recv() == nil && !isRepoPkg(fn.Pkg) && !initPkgs[p] {
 			return func(m *Machine, fr *Frame, args []Value, call ssa.Instruction, isDefer bool) (Value, int) { return nil, 1 }
 		}
 		switch {
 		case strings.HasPrefix(p, "github.com/rs/zerolog"):
 			return zerologStub(fn)
-		case p == "github.com/pkg/errors" || p == "errors" || p == "fmt" || p == "runtime" || p == "time" || p == "math" || p == "strconv" || p == "os" || p == "github.com/klauspost/cpuid/v2":
-			if h, ok := m.intr[full]; ok {
-				return h
+		case stubPkgs[p]:
+			if interpretFns[full] {
+				return nil
 			}
 			return genericStub(fn)
 		}
@@ -82,10 +122,141 @@ func zeroResult(fn *ssa.Function) Value {
 	return t
 }
 
+// ---- zerolog model (DESIGN §5) ----
+
+var zlLevels = map[string]int{"Trace": -1, "Debug": 0, "Info": 1, "Warn": 2, "Error": 3, "Fatal": 4, "Panic": 5}
+
+func loggerLevel(v Value) *T {
+	// zerolog.Logger struct: field "level"
+	switch x := v.(type) {
+	case Struct:
+		return x.F[1].(*T)
+	case Ptr:
+		if x.L != nil && len(x.L.sub) > 1 {
+			return x.L.sub[1].v.(*T)
+		}
+	}
+	panic(unsupported{"zerolog logger value shape"})
+}
+
 func zerologStub(fn *ssa.Function) intrFn {
+	name := fn.Name()
+	recv := ""
+	if fn.Signature.Recv() != nil {
+		recv = fn.Signature.Recv().Type().String()
+	}
+	isLogger := strings.HasSuffix(recv, "zerolog.Logger")
+	isEvent := strings.HasSuffix(recv, "zerolog.Event")
+	if isLogger && (name == "GetLevel" || name == "Level") {
+		return nil // interpreted from the real SSA
+	}
 	return func(m *Machine, fr *Frame, args []Value, call ssa.Instruction, isDefer bool) (Value, int) {
-		if fn.Name() == "GetLevel" {
-			return BV(8, 5), 1 // PanicLevel
+		if isLogger {
+			lvl := -100
+			var lvlT *T
+			if l, ok := zlLevels[name]; ok {
+				lvl = l
+			}
+			if name == "Err" {
+				// Err(err): Error level when err != nil, Info otherwise
+				if e, ok := args[1].(Iface); ok && e.T != nil {
+					lvl = 3
+				} else {
+					lvl = 1
+				}
+			}
+			if name == "WithLevel" {
+				lvlT = args[1].(*T)
+			} else if lvl != -100 {
+				lvlT = BV(8, uint64(lvl))
+			}
+			if lvlT != nil {
+				cur := loggerLevel(args[0])
+				// enabled iff level >= cur (signed int8) and cur != Disabled(7) and level != NoLevel quirks ignored
+				en := And(Cmp("bvsle", cur, lvlT), Not(Eq(cur, BV(8, 7))))
+				if m.decide(en) {
+					m.logEvents++
+					ev := &Loc{typ: fn.Signature.Results().At(0).Type().(*types.Pointer).Elem(), v: BoolC(true)}
+					return Ptr{L: ev}, 1
+				}
+				return Ptr{Nil: true}, 1
+			}
+			return zeroResult(fn), 1
+		}
+		if isEvent {
+			ev := args[0].(Ptr)
+			res := fn.Signature.Results()
+			if ev.Nil {
+				if res.Len() == 1 {
+					if _, ok := res.At(0).Type().(*types.Pointer); ok {
+						return Ptr{Nil: true}, 1
+					}
+				}
+				return zeroResult(fn), 1
+			}
+			// enabled event: call back into the argument's marshaler / stringer / Error
+			switch name {
+			case "Object", "EmbedObject", "Array", "Stringer", "Err", "AnErr", "Interface":
+				a := args[len(args)-1]
+				if iv, ok := a.(Iface); ok && iv.T != nil {
+					var mname string
+					switch name {
+					case "Object", "EmbedObject":
+						mname = "MarshalZerologObject"
+					case "Array":
+						mname = "MarshalZerologArray"
+					case "Stringer":
+						mname = "String"
+					case "Err", "AnErr":
+						mname = "Error"
+					}
+					if mname != "" && iv.T != m.errType {
+						ms := m.prog.MethodSets.MethodSet(iv.T)
+						for i := 0; i < ms.Len(); i++ {
+							if ms.At(i).Obj().Name() == mname {
+								cf := m.prog.MethodValue(ms.At(i))
+								if cf != nil && cf.Blocks != nil {
+									cargs := []Value{iv.V}
+									if mname == "MarshalZerologObject" || mname == "MarshalZerologArray" {
+										pt := cf.Signature.Params().At(0).Type()
+										if p, ok := pt.(*types.Pointer); ok {
+											cargs = append(cargs, Ptr{L: &Loc{typ: p.Elem(), v: BoolC(true)}})
+										} else {
+											cargs = append(cargs, zeroValue(pt))
+										}
+									}
+									// run the callback, drop its result, then deliver ev as the result of this call
+									evv := ev
+									m.callWithAfter(Func{Fn: cf}, cargs, call, isDefer, func(m *Machine, r Value) Value { return evv })
+									return nil, 2
+								}
+							}
+						}
+					}
+				}
+				return ev, 1
+			case "Send", "Msg", "Msgf":
+				m.logWrites++
+				return nil, 1
+			}
+			if res.Len() == 1 {
+				if _, ok := res.At(0).Type().(*types.Pointer); ok {
+					return ev, 1
+				}
+			}
+			return zeroResult(fn), 1
+		}
+		// zerolog.Array / Context / free functions: arrays used inside marshalers return themselves
+		res := fn.Signature.Results()
+		if res.Len() == 1 && fn.Signature.Recv() != nil {
+			if types.Identical(res.At(0).Type(), fn.Signature.Recv().Type()) {
+				return args[0], 1
+			}
+		}
+		if res.Len() == 1 {
+			if p, ok := res.At(0).Type().(*types.Pointer); ok && (name == "Arr" || name == "Dict") {
+				return Ptr{L: &Loc{typ: p.Elem(), v: BoolC(true)}}, 1
+			}
 		}
 		return zeroResult(fn), 1
 	}
@@ -96,11 +267,66 @@ func isErrorType(t types.Type) bool {
 	return ok && it.NumMethods() == 1 && it.Method(0).Name() == "Error"
 }
 
+func f64of(t *T, w int) float64 {
+	if w == 32 {
+		return float64(math.Float32frombits(uint32(t.C)))
+	}
+	return math.Float64frombits(t.C)
+}
+
+var mathFns = map[string]func(a ...float64) float64{
+	"Sqrt": func(a ...float64) float64 { return math.Sqrt(a[0]) }, "Pow": func(a ...float64) float64 { return math.Pow(a[0], a[1]) },
+	"Abs": func(a ...float64) float64 { return math.Abs(a[0]) }, "Floor": func(a ...float64) float64 { return math.Floor(a[0]) },
+	"Round": func(a ...float64) float64 { return math.Round(a[0]) }, "Cos": func(a ...float64) float64 { return math.Cos(a[0]) },
+	"Max": func(a ...float64) float64 { return math.Max(a[0], a[1]) }, "Min": func(a ...float64) float64 { return math.Min(a[0], a[1]) },
+	"Copysign": func(a ...float64) float64 { return math.Copysign(a[0], a[1]) }, "Log2": func(a ...float64) float64 { return math.Log2(a[0]) },
+	"Ceil": func(a ...float64) float64 { return math.Ceil(a[0]) }, "Trunc": func(a ...float64) float64 { return math.Trunc(a[0]) },
+	"Log": func(a ...float64) float64 { return math.Log(a[0]) }, "Exp": func(a ...float64) float64 { return math.Exp(a[0]) },
+	"Sin": func(a ...float64) float64 { return math.Sin(a[0]) },
+}
+
 func genericStub(fn *ssa.Function) intrFn {
 	return func(m *Machine, fr *Frame, args []Value, call ssa.Instruction, isDefer bool) (Value, int) {
 		p := fn.Pkg.Pkg.Path()
 		name := fn.Name()
 		res := fn.Signature.Results()
+		m.stubsUsed[fn.String()]++
+		if p == "math" {
+			switch name {
+			case "Float32bits", "Float32frombits", "Float64bits", "Float64frombits":
+				return args[0], 1
+			case "IsNaN":
+				t := args[0].(*T)
+				if t.IsC {
+					return BoolC(math.IsNaN(math.Float64frombits(t.C))), 1
+				}
+				return App("uf_isnan", 0, t), 1
+			case "IsInf":
+				t := args[0].(*T)
+				if t.IsC && args[1].(*T).IsC {
+					return BoolC(math.IsInf(math.Float64frombits(t.C), int(int64(args[1].(*T).C)))), 1
+				}
+				return App("uf_isinf", 0, t, args[1].(*T)), 1
+			}
+			if f, ok := mathFns[name]; ok {
+				all := true
+				var fs []float64
+				var as []*T
+				for _, a := range args {
+					t := a.(*T)
+					as = append(as, t)
+					if !t.IsC {
+						all = false
+					} else {
+						fs = append(fs, math.Float64frombits(t.C))
+					}
+				}
+				if all {
+					return BV(64, math.Float64bits(f(fs...))), 1
+				}
+				return App("uf_math_"+name, 64, as...), 1
+			}
+		}
 		// error constructors
 		if res.Len() == 1 && isErrorType(res.At(0).Type()) {
 			if p == "github.com/pkg/errors" && (strings.HasPrefix(name, "Wrap") || strings.HasPrefix(name, "With")) {
@@ -108,15 +334,48 @@ func genericStub(fn *ssa.Function) intrFn {
 					return Iface{}, 1
 				}
 			}
+			m.ghostAlloc(BV(64, 256))
 			errSeq++
 			return m.opaqueErr(fmt.Sprintf("%s.%s#%d", p, name, errSeq)), 1
 		}
 		if p == "fmt" && (name == "Println" || name == "Printf" || name == "Print") {
-			m.report("stdout", m.where(), "write to fd 1 via fmt."+name)
+			m.stdoutWrites++
+			m.trail = append(m.trail, func() { m.stdoutWrites-- })
+			if m.stdoutIsFinding {
+				m.reportSite("stdout", m.where(), m.site(), "write to fd 1 via fmt."+name, m.stackNames())
+			}
 			return zeroResult(fn), 1
 		}
-		if p == "fmt" && name == "Sprintf" {
+		if p == "fmt" && (name == "Sprintf" || name == "Sprint" || name == "Sprintln") {
+			m.ghostAlloc(BV(64, 256))
 			return Str{B: []*T{BV(8, '?')}}, 1
+		}
+		if p == "os" && name == "Exit" {
+			panic(pathEnd{"os.Exit"})
+		}
+		if p == "strconv" {
+			switch name {
+			case "ParseFloat":
+				// (float64, error): value and success are uninterpreted functions of the text
+				s := args[0].(Str)
+				h := strHash(s)
+				ok := App("uf_parsefloat_ok", 0, h, BV(64, uint64(len(s.B))))
+				v := App("uf_parsefloat", 64, h, BV(64, uint64(len(s.B))))
+				if m.decide(ok) {
+					return Tuple{v, Iface{}}, 1
+				}
+				errSeq++
+				return Tuple{BV(64, 0), m.opaqueErr(fmt.Sprintf("strconv.ParseFloat#%d", errSeq))}, 1
+			case "AppendFloat":
+				// appends an opaque, non-empty decimal text: modelled as one uninterpreted byte '#'
+				dst := args[0].(Slice)
+				return m.appendBytes(dst, []*T{BV(8, '#')}), 1
+			case "FormatFloat":
+				return Str{B: []*T{BV(8, '#')}}, 1
+			}
+		}
+		if p == "time" {
+			return timeStub(m, fn, args)
 		}
 		// uninterpreted scalar functions
 		if res.Len() == 1 {
@@ -127,11 +386,119 @@ func genericStub(fn *ssa.Function) intrFn {
 						as = append(as, t)
 					}
 				}
-				return App("uf_"+strings.ReplaceAll(p, "/", "_")+"_"+name, w, as...), 1
+				return App("uf_"+strings.ReplaceAll(strings.ReplaceAll(p, "/", "_"), ".", "_")+"_"+name, w, as...), 1
 			}
 		}
 		return zeroResult(fn), 1
 	}
+}
+
+// strHash folds a symbolic string into a 64-bit term that is injective for strings up to 8 bytes and an
+// uninterpreted combination beyond (only used as the argument of uninterpreted parsers).
+func strHash(s Str) *T {
+	h := BV(64, 0)
+	for i, b := range s.B {
+		if i < 8 {
+			h = Bin("bvor", h, Bin("bvshl", ZExt(64, b), BV(64, uint64(8*i))))
+		} else {
+			h = App("uf_strmix", 64, h, ZExt(64, b))
+		}
+	}
+	return h
+}
+
+// timeStub: time values are opaque; constructors return a Time whose wall/ext fields are uninterpreted
+// functions of the integer components, so equality of instants reduces to equality of the components.
+func timeStub(m *Machine, fn *ssa.Function, args []Value) (Value, int) {
+	name := fn.Name()
+	res := fn.Signature.Results()
+	collect := func() []*T {
+		var as []*T
+		var rec func(v Value)
+		rec = func(v Value) {
+			switch x := v.(type) {
+			case *T:
+				if x.W > 0 {
+					as = append(as, x)
+				}
+			case Struct:
+				for _, f := range x.F {
+					rec(f)
+				}
+			case Str:
+				as = append(as, strHash(x), BV(64, uint64(len(x.B))))
+			case Ptr:
+				if x.L != nil {
+					if t, ok := x.L.v.(*T); ok && t.W > 0 {
+						as = append(as, t)
+					}
+				} else if x.Nil {
+					as = append(as, BV(64, 0))
+				}
+			}
+		}
+		for _, a := range args {
+			rec(a)
+		}
+		return as
+	}
+	mk := func(t types.Type, tag string) Value {
+		as := collect()
+		var rec func(t types.Type, path string) Value
+		rec = func(t types.Type, path string) Value {
+			switch u := t.Underlying().(type) {
+			case *types.Struct:
+				s := Struct{F: make([]Value, u.NumFields())}
+				for i := range s.F {
+					s.F[i] = rec(u.Field(i).Type(), fmt.Sprintf("%s_%d", path, i))
+				}
+				return s
+			case *types.Pointer:
+				// *time.Location: an opaque location object identified by an uninterpreted id
+				l := &Loc{typ: u.Elem(), v: App("uf_time_"+tag+path, 64, as...)}
+				return Ptr{L: l}
+			case *types.Basic:
+				if w, _, ok := intWidth(t); ok {
+					return App("uf_time_"+tag+path, w, as...)
+				}
+				if u.Kind() == types.String {
+					return Str{B: []*T{BV(8, '?')}}
+				}
+				if u.Kind() == types.Bool {
+					return App("uf_time_"+tag+path, 0, as...)
+				}
+			case *types.Interface:
+				return Iface{}
+			}
+			return zeroValue(t)
+		}
+		return rec(t, "")
+	}
+	tag := name
+	if fn.Signature.Recv() != nil {
+		rt := fn.Signature.Recv().Type().String()
+		tag = strings.NewReplacer("*", "p", ".", "_", "/", "_").Replace(rt) + "_" + name
+	}
+	if res.Len() == 0 {
+		return nil, 1
+	}
+	if name == "Parse" || name == "ParseInLocation" {
+		as := collect()
+		ok := App("uf_time_parse_ok", 0, as...)
+		if m.decide(ok) {
+			return Tuple{mk(res.At(0).Type(), tag), Iface{}}, 1
+		}
+		errSeq++
+		return Tuple{zeroValue(res.At(0).Type()), m.opaqueErr(fmt.Sprintf("time.Parse#%d", errSeq))}, 1
+	}
+	if res.Len() == 1 {
+		return mk(res.At(0).Type(), tag), 1
+	}
+	t := make(Tuple, res.Len())
+	for i := range t {
+		t[i] = mk(res.At(i).Type(), fmt.Sprintf("%s_r%d", tag, i))
+	}
+	return t, 1
 }
 
 func newVarBA(name string, n int) (*ByteArr, []*T) {
@@ -155,6 +522,28 @@ func newVarBA(name string, n int) (*ByteArr, []*T) {
 	}}, vars
 }
 
+func (m *Machine) addInput(v *T) {
+	m.inputs = append(m.inputs, v)
+	m.trail = append(m.trail, func() { m.inputs = m.inputs[:len(m.inputs)-1] })
+}
+
+func (m *Machine) addStream(loc *Loc, r *memReader) {
+	models[loc] = r
+	streams = append(streams, r)
+	m.trail = append(m.trail, func() { delete(models, loc); streams = streams[:len(streams)-1] })
+}
+
+func (m *Machine) ghostAlloc(n *T) {
+	old := m.allocated
+	m.allocated = Bin("bvadd", m.allocated, n)
+	m.trail = append(m.trail, func() { m.allocated = old })
+}
+
+func readerLocType(call ssa.Instruction) types.Type {
+	fn := call.(*ssa.Call).Call.StaticCallee()
+	return fn.Signature.Results().At(0).Type().(*types.Pointer).Elem()
+}
+
 func registerIntrinsics(m *Machine) {
 	I := m.intr
 	done := func(v Value) (Value, int) { return v, 1 }
@@ -162,14 +551,16 @@ func registerIntrinsics(m *Machine) {
 		name := goString(a[0])
 		n := int(a[1].(*T).C)
 		ba, vars := newVarBA(name, n)
-		m.inputs = append(m.inputs, vars...)
+		for _, v := range vars {
+			m.addInput(v)
+		}
 		ln := BV(64, uint64(n))
 		return done(Slice{BA: ba, Off: BV(64, 0), Len: ln, Cap: ln})
 	}
 	mkInt := func(w int) intrFn {
 		return func(m *Machine, fr *Frame, a []Value, call ssa.Instruction, d bool) (Value, int) {
 			v := Var(goString(a[0]), w)
-			m.inputs = append(m.inputs, v)
+			m.addInput(v)
 			return done(v)
 		}
 	}
@@ -177,6 +568,20 @@ func registerIntrinsics(m *Machine) {
 	I["zzU8"] = mkInt(8)
 	I["zzU16"] = mkInt(16)
 	I["zzU32"] = mkInt(32)
+	I["zzU64"] = mkInt(64)
+	I["zzI16"] = mkInt(16)
+	I["zzI32"] = mkInt(32)
+	I["zzBool"] = func(m *Machine, fr *Frame, a []Value, call ssa.Instruction, d bool) (Value, int) {
+		v := Var(goString(a[0]), 64)
+		m.addInput(v)
+		return done(Not(Eq(v, BV(64, 0))))
+	}
+	I["zzTier"] = func(m *Machine, fr *Frame, a []Value, call ssa.Instruction, d bool) (Value, int) {
+		return done(BV(64, uint64(m.tier)))
+	}
+	I["zzPart"] = func(m *Machine, fr *Frame, a []Value, call ssa.Instruction, d bool) (Value, int) {
+		return done(BV(64, uint64(m.part)))
+	}
 	I["zzAssume"] = func(m *Machine, fr *Frame, a []Value, call ssa.Instruction, d bool) (Value, int) {
 		if !m.decide(a[0].(*T)) {
 			panic(pathEnd{"assume"})
@@ -184,8 +589,11 @@ func registerIntrinsics(m *Machine) {
 		return done(nil)
 	}
 	I["zzAssert"] = func(m *Machine, fr *Frame, a []Value, call ssa.Instruction, d bool) (Value, int) {
+		msg := goString(a[1])
+		m.assertsSeen[msg]++
 		if !m.decide(a[0].(*T)) {
-			m.report("assert", goString(a[1]), m.where())
+			m.reportSite("assert", m.where(), "assert: "+msg, msg, nil)
+			panic(pathEnd{"assert"})
 		}
 		return done(nil)
 	}
@@ -193,76 +601,177 @@ func registerIntrinsics(m *Machine) {
 		reached[goString(a[0])]++
 		return done(nil)
 	}
-	// zzStream(name, maxLen) *zzMemReader : UF-backed stream of symbolic length <= maxLen
 	I["zzStream"] = func(m *Machine, fr *Frame, a []Value, call ssa.Instruction, d bool) (Value, int) {
 		name := goString(a[0])
 		max := a[1].(*T).C
-		fn := call.(*ssa.Call).Call.StaticCallee()
-		pt := fn.Signature.Results().At(0).Type().(*types.Pointer)
-		loc := newLoc(pt.Elem())
+		loc := newLoc(readerLocType(call))
 		L := Var(name+"_len", 64)
-		m.inputs = append(m.inputs, L)
+		F := Var(name+"_fail", 64)
+		m.addInput(L)
+		m.addInput(F)
 		m.sol.Assert(Cmp("bvule", L, BV(64, max)))
-		models[loc] = &memReader{data: newUFBA(int(max), name), L: L, pos: BV(64, 0), reqs: BV(64, 0)}
-		streams = append(streams, models[loc])
+		m.addStream(loc, &memReader{name: name, max: int(max), data: newUFBA(int(max), name), L: L, pos: BV(64, 0), reqs: BV(64, 0), fail: Not(Eq(F, BV(64, 0)))})
 		return done(Ptr{L: loc})
 	}
-	// zzReaderOf(b []byte) *zzMemReader : stream over a harness-built slice
-	I["zzReaderOf"] = func(m *Machine, fr *Frame, a []Value, call ssa.Instruction, d bool) (Value, int) {
-		s := a[0].(Slice)
-		fn := call.(*ssa.Call).Call.StaticCallee()
-		pt := fn.Signature.Results().At(0).Type().(*types.Pointer)
-		loc := newLoc(pt.Elem())
-		// snapshot view: data[i] = s[off+i]
-		src := s.BA
-		off := s.Off
-		nupd := len(src.upd)
-		baSeq++
-		view := &ByteArr{n: src.n, name: "view", base: func(i *T) *T { return src.readAt(Bin("bvadd", off, i), nupd) }}
-		models[loc] = &memReader{data: view, L: s.Len, pos: BV(64, 0), reqs: BV(64, 0)}
-		return done(Ptr{L: loc})
+	mkReaderOf := func(trunc, chunked bool) intrFn {
+		return func(m *Machine, fr *Frame, a []Value, call ssa.Instruction, d bool) (Value, int) {
+			s := a[0].(Slice)
+			loc := newLoc(readerLocType(call))
+			src := s.BA
+			off := s.Off
+			nupd := 0
+			if src != nil {
+				nupd = len(src.upd)
+			}
+			baSeq++
+			view := &ByteArr{n: 0, name: "view", base: func(i *T) *T {
+				if src == nil {
+					return BV(8, 0)
+				}
+				return src.readAt(Bin("bvadd", off, i), nupd)
+			}}
+			r := &memReader{name: "r", data: view, L: s.Len, pos: BV(64, 0), reqs: BV(64, 0), fail: BoolC(false), chunked: chunked}
+			if trunc || chunked {
+				r.name = goString(a[1])
+			}
+			if trunc {
+				L := Var(r.name+"_len", 64)
+				F := Var(r.name+"_fail", 64)
+				m.addInput(L)
+				m.addInput(F)
+				m.sol.Assert(Cmp("bvule", L, s.Len))
+				r.L = L
+				r.fail = Not(Eq(F, BV(64, 0)))
+			}
+			if chunked {
+				e := Var(r.name+"_eofdata", 64)
+				m.addInput(e)
+				r.eofData = Not(Eq(e, BV(64, 0)))
+			}
+			models[loc] = r
+			m.trail = append(m.trail, func() { delete(models, loc) })
+			return done(Ptr{L: loc})
+		}
+	}
+	I["zzReaderOf"] = mkReaderOf(false, false)
+	I["zzReaderTrunc"] = mkReaderOf(true, false)
+	I["zzChunkedReaderOf"] = mkReaderOf(false, true)
+	setPos := func(m *Machine, r *memReader, np *T) {
+		old := r.pos
+		r.pos = np
+		m.trail = append(m.trail, func() { r.pos = old })
+	}
+	addReq := func(m *Machine, r *memReader, n *T) {
+		old := r.reqs
+		r.reqs = Bin("bvadd", r.reqs, n)
+		m.trail = append(m.trail, func() { r.reqs = old })
+	}
+	termErr := func(m *Machine, r *memReader) Iface {
+		if m.decide(r.fail) {
+			return m.opaqueErr("zz.injected")
+		}
+		return m.opaqueErr("io.EOF")
 	}
 	I["(*zzMemReader).Read"] = func(m *Machine, fr *Frame, a []Value, call ssa.Instruction, d bool) (Value, int) {
 		r := models[a[0].(Ptr).L]
 		p := a[1].(Slice)
+		addReq(m, r, p.Len)
+		if m.decide(Eq(p.Len, BV(64, 0))) {
+			return done(Tuple{BV(64, 0), Iface{}})
+		}
+		if m.decide(Cmp("bvule", r.L, r.pos)) {
+			return done(Tuple{BV(64, 0), termErr(m, r)})
+		}
 		avail := Bin("bvsub", r.L, r.pos)
 		n := Ite(Cmp("bvult", avail, p.Len), avail, p.Len)
-		eof := And(Eq(n, BV(64, 0)), Not(Eq(p.Len, BV(64, 0))))
-		isEOF := m.decide(eof)
-		if isEOF {
-			return done(Tuple{BV(64, 0), m.opaqueErr("io.EOF")})
+		var err Value = Iface{}
+		if r.chunked {
+			k := Var(fmt.Sprintf("%s_c%d", r.name, r.nread), 64)
+			m.addInput(k)
+			m.sol.Assert(Cmp("bvule", BV(64, 1), k))
+			m.sol.Assert(Cmp("bvule", k, BV(64, 1<<20)))
+			n = Ite(Cmp("bvult", k, n), k, n)
+			if m.decide(And(Eq(n, avail), r.eofData)) {
+				err = m.opaqueErr("io.EOF")
+			}
 		}
+		onr := r.nread
+		r.nread++
+		m.trail = append(m.trail, func() { r.nread = onr })
 		if p.BA != nil {
 			m.baCopy(p.BA, p.Off, n, r.data, r.pos)
 		}
-		old := r.pos
-		oreq := r.reqs
-		r.pos = Bin("bvadd", r.pos, n)
-		r.reqs = Bin("bvadd", r.reqs, p.Len)
-		m.trail = append(m.trail, func() { r.pos = old; r.reqs = oreq })
-		return done(Tuple{n, Iface{}})
+		setPos(m, r, Bin("bvadd", r.pos, n))
+		return done(Tuple{n, err})
 	}
 	I["(*zzMemReader).Seek"] = func(m *Machine, fr *Frame, a []Value, call ssa.Instruction, d bool) (Value, int) {
 		r := models[a[0].(Ptr).L]
 		off := a[1].(*T)
-		wh := m.conc(a[2].(*T), 3)
+		wh := m.conc(a[2].(*T), 4)
 		var np *T
 		switch wh {
 		case 0:
 			np = off
 		case 1:
 			np = Bin("bvadd", r.pos, off)
-		default:
+		case 2:
 			np = Bin("bvadd", r.L, off)
+		default:
+			return done(Tuple{BV(64, 0), m.opaqueErr("zz.badwhence")})
 		}
 		if !m.decide(Cmp("bvsle", BV(64, 0), np)) {
-			errSeq++
-			return done(Tuple{BV(64, 0), m.opaqueErr("seek.negative")})
+			return done(Tuple{BV(64, 0), m.opaqueErr("zz.seek.negative")})
 		}
-		old := r.pos
-		r.pos = np
-		m.trail = append(m.trail, func() { r.pos = old })
+		setPos(m, r, np)
 		return done(Tuple{np, Iface{}})
+	}
+	I["(*zzMemReader).ReadAt"] = func(m *Machine, fr *Frame, a []Value, call ssa.Instruction, d bool) (Value, int) {
+		r := models[a[0].(Ptr).L]
+		p := a[1].(Slice)
+		off := a[2].(*T)
+		addReq(m, r, p.Len)
+		if m.decide(Cmp("bvslt", off, BV(64, 0))) {
+			return done(Tuple{BV(64, 0), m.opaqueErr("zz.readat.negative")})
+		}
+		if m.decide(Cmp("bvule", r.L, off)) {
+			return done(Tuple{BV(64, 0), termErr(m, r)})
+		}
+		avail := Bin("bvsub", r.L, off)
+		n := Ite(Cmp("bvult", avail, p.Len), avail, p.Len)
+		if p.BA != nil {
+			m.baCopy(p.BA, p.Off, n, r.data, off)
+		}
+		if m.decide(Cmp("bvult", n, p.Len)) {
+			return done(Tuple{n, termErr(m, r)})
+		}
+		return done(Tuple{n, Iface{}})
+	}
+	I["(*zzMemReader).Pos"] = func(m *Machine, fr *Frame, a []Value, call ssa.Instruction, d bool) (Value, int) {
+		return done(models[a[0].(Ptr).L].pos)
+	}
+	I["(*zzMemReader).Requested"] = func(m *Machine, fr *Frame, a []Value, call ssa.Instruction, d bool) (Value, int) {
+		return done(models[a[0].(Ptr).L].reqs)
+	}
+	I["(*zzMemReader).Len"] = func(m *Machine, fr *Frame, a []Value, call ssa.Instruction, d bool) (Value, int) {
+		return done(models[a[0].(Ptr).L].L)
+	}
+	I["zzAllocated"] = func(m *Machine, fr *Frame, a []Value, call ssa.Instruction, d bool) (Value, int) {
+		return done(m.allocated)
+	}
+	I["zzStdout"] = func(m *Machine, fr *Frame, a []Value, call ssa.Instruction, d bool) (Value, int) {
+		return done(BV(64, uint64(m.stdoutWrites)))
+	}
+	I["zzPoolHavoc"] = func(m *Machine, fr *Frame, a []Value, call ssa.Instruction, d bool) (Value, int) {
+		old := m.poolHavoc
+		m.poolHavoc = true
+		m.trail = append(m.trail, func() { m.poolHavoc = old })
+		return done(nil)
+	}
+	I["zzLogLevel"] = func(m *Machine, fr *Frame, a []Value, call ssa.Instruction, d bool) (Value, int) {
+		panic(unsupported{"zzLogLevel: set the level through the real zerolog API in the harness"})
+	}
+	I["zzRun"] = func(m *Machine, fr *Frame, a []Value, call ssa.Instruction, d bool) (Value, int) {
+		panic(unsupported{"zzRun is native-only"})
 	}
 	I["(*sync.Pool).Get"] = func(m *Machine, fr *Frame, a []Value, call ssa.Instruction, d bool) (Value, int) {
 		p := a[0].(Ptr).L
@@ -273,6 +782,10 @@ func registerIntrinsics(m *Machine) {
 				if nf.Fn == nil {
 					return done(Iface{})
 				}
+				if m.poolHavoc {
+					m.callWithAfter(nf, nil, call, d, func(m *Machine, r Value) Value { m.havocValue(r); return r })
+					return nil, 2
+				}
 				m.callValue(nf, nil, call, d)
 				return nil, 2
 			}
@@ -282,6 +795,7 @@ func registerIntrinsics(m *Machine) {
 	I["(*sync.Pool).Put"] = func(m *Machine, fr *Frame, a []Value, call ssa.Instruction, d bool) (Value, int) { return done(nil) }
 	for _, n := range []string{"Lock", "Unlock", "RLock", "RUnlock"} {
 		I["(*sync.RWMutex)."+n] = func(m *Machine, fr *Frame, a []Value, call ssa.Instruction, d bool) (Value, int) { return done(nil) }
+		I["(*sync.Mutex)."+n] = func(m *Machine, fr *Frame, a []Value, call ssa.Instruction, d bool) (Value, int) { return done(nil) }
 	}
 	I["bytes.Equal"] = func(m *Machine, fr *Frame, a []Value, call ssa.Instruction, d bool) (Value, int) {
 		x, y := a[0].(Slice), a[1].(Slice)
@@ -307,9 +821,21 @@ func registerIntrinsics(m *Machine) {
 		}
 		return done(BV(64, ^uint64(0)))
 	}
-	I["io.LimitReader"] = nil
-	delete(I, "io.LimitReader")
+	I["strings.ToLower"] = func(m *Machine, fr *Frame, a []Value, call ssa.Instruction, d bool) (Value, int) {
+		s := a[0].(Str)
+		r := Str{B: make([]*T, len(s.B))}
+		for i, b := range s.B {
+			isUp := And(Cmp("bvule", BV(8, 'A'), b), Cmp("bvule", b, BV(8, 'Z')))
+			r.B[i] = Ite(isUp, Bin("bvadd", b, BV(8, 32)), b)
+			// bytes >= 0x80 take the unicode path in the real function; they are left unchanged here (stated assumption)
+		}
+		return done(r)
+	}
+	I["runtime.KeepAlive"] = func(m *Machine, fr *Frame, a []Value, call ssa.Instruction, d bool) (Value, int) { return done(nil) }
 }
 
-var reached = map[string]int{}
-var streams []*memReader
+// appendBytes appends symbolic bytes to a byte slice (used by stubs).
+func (m *Machine) appendBytes(s Slice, bs []*T) Value {
+	st := Str{B: bs}
+	return m.appendValue(s, st, true)
+}
